@@ -375,9 +375,10 @@ def _run(case, out, rig, server, cfg, variant, phone):
         nt = True
         out.label("coalesced")
     o = server.take_out()
-    if case.get("corrupt") and case.get("behind"):
+    if case.get("corrupt") and case.get("behind") and getattr(server, "last_damage_certain", True):
         # the server does not wait for the client's verdict on its reply: further frames follow right behind the reply that will not
-        # authenticate (what they hold cannot matter - no session was established).  The failure is reported all the same
+        # authenticate (what they hold cannot matter - no session was established).  The failure is reported all the same.  (Only
+        # when the damage certainly changed the reply: behind an authentic reply such frames would be traffic that does not decrypt)
         import hashlib as _h
         for k in range(case["behind"]):
             junk = _h.shake_256(b"behind-%d" % k).digest(24 + 17 * k)
